@@ -21,7 +21,7 @@ LEVEL_TEXT = ('PARTIAL. Decided statically, for every shipped family and all val
               'table-driven optima over every row of the shipped tables; table shapes match the NUM_* constants and '
               'the index expressions used; a shipped Calculate returns a point-independent penalty only strictly '
               'outside a bound (closed declared box); nothing outside the problem classes writes into bound vectors, '
-              'names or the known optimum. Metadata objects are allocated per construction; the boundary members of a table-driven family are constructed as themselves. NOT decided: optimum-in-box for generated GKLS points, and the agreement '
+              'names or the known optimum. Metadata objects are allocated per construction; the boundary members of a table-driven family are constructed as themselves; a method that re-assigns an attribute derived from a constructor argument re-derives everything derived from that argument (no such method on this tree). NOT decided: optimum-in-box for generated GKLS points, and the agreement '
               'of the min/max/Lipschitz tables with the functions (numerical).')
 EXPLANATION = ('Path summaries of each constructor are replayed into abstract arrays; lengths are compared as '
                'expressions in the constructor argument, fills as exact constants; literal tables are read from the '
@@ -96,7 +96,13 @@ def replay(p: Path) -> Dict[object, AV]:
                     av.fill = RF.const(1)
                 if c == 'numpy.full':
                     fv = e.d['kwargs'].get('fill_value', e.d['args'][1] if len(e.d['args']) > 1 else None)
-                    if isinstance(fv, RF):
+                    if isinstance(fv, TupleVal) and all(isinstance(x, RF) for x in fv.items):
+                        av.idx = dict(enumerate(fv.items))      # a list display broadcast over the coordinates
+                    elif isinstance(fv, RF) and key_of(fv) in arrays:
+                        src = arrays[key_of(fv)]                # an array filled element-wise from another array
+                        av.idx, av.fill, av.loop = dict(src.idx), src.fill, src.loop
+                        av.loop_range = getattr(src, 'loop_range', None)
+                    elif isinstance(fv, RF):
                         av.fill = fv
                 arrays[key_of(res)] = av
         elif e.kind == 'call' and e.d['name'] == 'fill' and e.d.get('recv') is not None:
@@ -618,6 +624,147 @@ def r18_6(ctx: Ctx):
     ctx.floor(rid, 'mutation sites outside the problem classes', n, 100)
 
 
+def _norm_attr(a: str) -> str:
+    if a.startswith('_') and not a.startswith('__') and '__' in a[1:]:
+        return a[a.index('__', 1):]
+    return a
+
+
+def r18_9(ctx: Ctx):
+    """A problem instance is one member of its family: the constructor derives several attributes from the same
+    constructor argument (the member number, the dimension) - the known optimum, coefficient rows, bound vectors.  A
+    method that re-assigns one of them after construction (a property setter for the member number) re-targets the
+    instance; every attribute the constructor derived from the same argument must be re-derived with it, otherwise
+    the instance declares one member (number, known optimum, published table row) and evaluates another."""
+    rid = 'R18.9'
+    ctx.rule(rid, 're-targeting: a method of a shipped problem that re-assigns an attribute the constructor derives from '
+                  'a constructor argument also re-assigns every other attribute derived from that argument that the '
+                  'instance reads later (expected on this tree: no such method)')
+    n_methods = n_writers = 0
+    for c in shipped_problems(ctx):
+        init = c.methods.get('__init__')
+        if init is None or not isinstance(init.node, ast.FunctionDef):
+            continue
+        selfn = init.param_names[0]
+        params = set(init.param_names[1:])
+        props = {}              # property name -> setter FuncInfo
+        for nm, f in c.setters.items():
+            props[nm] = f
+
+        def stores_of(fn: FuncInfo) -> Set[str]:
+            sn = fn.param_names[0] if fn.param_names else None
+            out = set()
+            for nd in ast.walk(fn.node):
+                t = None
+                if isinstance(nd, (ast.Attribute, ast.Subscript)) and isinstance(nd.ctx, ast.Store):
+                    t = nd
+                    while isinstance(t, ast.Subscript):
+                        t = t.value
+                if isinstance(t, ast.Attribute) and isinstance(t.value, ast.Name) and t.value.id == sn:
+                    out.add(_norm_attr(t.attr))
+            return out
+
+        def stores_closure(fn: FuncInfo, depth=0) -> Set[str]:
+            out = stores_of(fn)
+            sn = fn.param_names[0] if fn.param_names else None
+            if depth < 3:
+                for nd in ast.walk(fn.node):
+                    if isinstance(nd, ast.Call) and isinstance(nd.func, ast.Attribute) and \
+                            isinstance(nd.func.value, ast.Name) and nd.func.value.id == sn:
+                        g = c.lookup(nd.func.attr)
+                        if g is not None and g is not fn and g.name != '__init__':
+                            out |= stores_closure(g, depth + 1)
+                    if isinstance(nd, ast.Attribute) and isinstance(nd.ctx, ast.Store) and \
+                            isinstance(nd.value, ast.Name) and nd.value.id == sn and nd.attr in props \
+                            and props[nd.attr] is not fn:
+                        out |= stores_closure(props[nd.attr], depth + 1)
+            return out
+
+        # what each attribute of the constructor is derived from (constructor parameters, other attributes)
+        local_src = {}          # local name -> set of params / attrs
+        deriv = {}              # attr -> set of ('p', param) / ('a', attr)
+
+        def sources(e) -> Set[tuple]:
+            out = set()
+            for x in ast.walk(e):
+                if isinstance(x, ast.Name) and x.id in params:
+                    out.add(('p', x.id))
+                elif isinstance(x, ast.Name) and x.id in local_src:
+                    out |= local_src[x.id]
+                elif isinstance(x, ast.Attribute) and isinstance(x.value, ast.Name) and x.value.id == selfn and \
+                        isinstance(x.ctx, ast.Load):
+                    out.add(('a', _norm_attr(x.attr)))
+            return out
+        for _ in range(3):
+            for st in ast.walk(init.node):
+                if not isinstance(st, ast.Assign):
+                    continue
+                src = sources(st.value)
+                for t in st.targets:
+                    base = t
+                    while isinstance(base, ast.Subscript):
+                        base = base.value
+                    if isinstance(base, ast.Name):
+                        local_src.setdefault(base.id, set()).update(src)
+                    elif isinstance(base, ast.Attribute) and isinstance(base.value, ast.Name) and \
+                            base.value.id == selfn:
+                        a = _norm_attr(base.attr)
+                        if a in props:
+                            for w in stores_closure(props[a]):
+                                deriv.setdefault(w, set()).update(src)
+                        deriv.setdefault(a, set()).update(src)
+        # expand attribute sources to the parameters behind them
+        def roots(a, seen=()):
+            out = set()
+            for k, v in deriv.get(a, ()):
+                if k == 'p':
+                    out.add(v)
+                elif v not in seen and v != a:
+                    out |= roots(v, seen + (a,))
+            return out
+        methods = [f for nm, f in sorted(c.methods.items()) if nm != '__init__' and f.kind == 'function'] + \
+            [f for nm, f in sorted(c.setters.items())]
+        # attributes read outside the constructor
+        read_later = set()
+        for f in methods:
+            sn = f.param_names[0] if f.param_names else None
+            for x in ast.walk(f.node):
+                if isinstance(x, ast.Attribute) and isinstance(x.ctx, ast.Load) and isinstance(x.value, ast.Name) \
+                        and x.value.id == sn:
+                    read_later.add(_norm_attr(x.attr))
+        for f in methods:
+            n_methods += 1
+            own = stores_of(f)
+            if not own:
+                continue
+            written = stores_closure(f)
+            for x in sorted(own):
+                rx = roots(x)
+                if not rx and x not in deriv:
+                    continue
+                n_writers += 1
+                stale = []
+                for y in sorted(deriv):
+                    if y == x or y in written or y in props:
+                        continue
+                    if (roots(y) & rx or ('a', x) in deriv[y]) and y in read_later:
+                        stale.append(y)
+                ctx.check(not stale, rid, f.short, f.loc(),
+                          f'{f.short} re-assigns .{x} together with everything the constructor derives from the same '
+                          f'argument',
+                          f'{f.short} re-assigns .{x}, which the constructor derives from its argument(s) '
+                          f'{sorted(rx) or [x]}, but leaves {", ".join("." + y for y in stale)} - derived from the same '
+                          f'argument and read later by the instance - at the constructor\'s value: after the call the '
+                          f'instance declares one member of the family and evaluates another',
+                          key=f'{rid}::{f.short}::{x}')
+    ctx.analysed[f'{rid}_methods_scanned'] = n_methods
+    ctx.floor(rid, 'methods of the shipped problem classes scanned', n_methods, 8)
+    if not any(x.rule == rid for x in ctx.findings):
+        ctx.ok(rid, 'iOpt/problems', f'{n_methods} methods scanned, {n_writers} re-assign a constructor-derived '
+                                     f'attribute: all of them re-derive what depends on the same argument',
+               'iOpt/problems')
+
+
 def r18_7(ctx: Ctx):
     """Metadata ownership: what an instance declares is its own.  A bound / name vector or a known-optimum object
     that is a process-wide object (allocated at import, as a default argument, or inside a memoised factory) is the
@@ -727,6 +874,8 @@ def r18_8(ctx: Ctx):
 def check(ctx: Ctx):
     if C.want(ctx, 'R18.8'):
         r18_8(ctx)
+    if C.want(ctx, 'R18.9'):
+        r18_9(ctx)
     if C.want(ctx, 'R18.7'):
         r18_7(ctx)
     if C.want(ctx, 'R18.6'):
